@@ -53,6 +53,7 @@ type frame struct {
 	panicV           *goPanic
 	backedges        map[int]int
 	curInstr         ssa.Instruction
+	skipPhis         bool
 }
 
 func (eng *Engine) info(fn *ssa.Function) *fnInfo {
@@ -258,7 +259,9 @@ func (e *Exec) runFrame(fr *frame) {
 				break
 			}
 		}
-		if nphi > 0 {
+		if fr.skipPhis {
+			fr.skipPhis = false
+		} else if nphi > 0 {
 			pi := -1
 			for i, p := range block.Preds {
 				if p == fr.prevBlock {
@@ -447,6 +450,9 @@ func (e *Exec) visitInstr(fr *frame, instr ssa.Instruction) continuation {
 		cond, ok := fr.get(instr.Cond).(*Term)
 		if !ok {
 			e.unsupported(fr, "branch on %s", describe(fr.get(instr.Cond)))
+		}
+		if !cond.IsConst() && e.tryIfConvert(fr, instr, cond) {
+			return kJump
 		}
 		succ := 1
 		if e.branch(fr, cond) {
@@ -752,7 +758,7 @@ func (e *Exec) callFunction(caller *frame, fn *ssa.Function, args []Value, env [
 		}
 		e.unsupported(caller, "call of function without Go body: %s", name)
 	}
-	if e.eng.mergeFns[name] && !e.templateMode && e.mergeDepth == 0 {
+	if !e.templateMode && e.mergeDepth == 0 && !e.eng.conf.NoMerge && (e.eng.mergeFns[name] || e.eng.pureFn(fn, 0)) {
 		return e.callMerged(caller, fn, args, env)
 	}
 	return e.callSSA(caller, fn, args, env)
